@@ -11,7 +11,11 @@
    PART 3  plan level for `always` constraints ([tcr_always_plan]): the compiled action's added preconditions hold before a
            step iff every always body holds after it ([added_iff_AH], from the regression lemma [K1], the `R == phi`
            shortcut and the relevance filter [K2] / [regress_irrelevant]); the compiled step is the original step
-           guarded by that ([step_compiled]); induction on the plan ([run_compiled]); the rebuilt goal ([goals_same]). *)
+           guarded by that ([step_compiled]); induction on the plan ([run_compiled]); the rebuilt goal ([goals_same]).
+   PART 4  plan level for ONE `sometime phi` ([tcr_sometime_plan]): frame lemmas of LayerA_DcrGoal_proofs (expressions that do
+           not mention the monitoring fluent fk do not see it) + steps that fire no effect on fk ([step_with]); what the
+           compiler adds to an action ([tcr_action_sometime]); one step ([step_sometime]: states agree off fk, fk' = fk or
+           phi after the step); runs ([run_sometime]); goal ([goals_sometime]); initial state ([tcr_init_sometime]). *)
 From Coq Require Import List ZArith NArith QArith Qcanon Bool Lia.
 Import ListNotations.
 Require Import UPV.Core.Expr UPV.Core.Eval UPV.Core.Interp UPV.Planning.Problem UPV.Planning.Sem.
@@ -19,6 +23,7 @@ Require Import UPV.Proofs.Eval_lemmas UPV.Proofs.Sem_proofs UPV.Proofs.Step_proo
 Require Import UPV.Compilers.Variants UPV.Compilers.LayerA_Defs UPV.Compilers.LayerA_Quant.
 Require Import UPV.Compilers.SimCheck UPV.Compilers.LayerA_Tcr.
 Require Import UPV.Compilers.LayerA_Inv UPV.Proofs.LayerA_base UPV.Proofs.LayerA_Quant_proofs UPV.Proofs.LayerA_Inv_proofs.
+Require Import UPV.Compilers.LayerA_DcrGoal UPV.Proofs.LayerA_DcrGoal_proofs.
 Local Open Scope nat_scope.
 
 (* ================================================================== PART 1: the abstract monitor decides PDDL3 *)
@@ -801,3 +806,357 @@ Section AlwaysPlan.
     destruct (run_ah P C s0 pi) as [t|]; [apply goals_same | reflexivity].
   Qed.
 End AlwaysPlan.
+
+(* ================================================================== PART 4: plan level, one `sometime` constraint *)
+(* ---- steps of the compiled problem (one more Boolean fluent fk) that do not fire an effect on fk *)
+Section PlainStep.
+  Variable fk : N.
+  Variables P P' : problem.
+  Hypothesis Ho : p_objs P' = p_objs P.
+  Hypothesis Hi : p_ifun P' = p_ifun P.
+  Hypothesis Hfl : p_fluents P' = p_fluents P ++ [fk_decl fk].
+  Hypothesis Hv : p_invs P' = p_invs P.
+  Hypothesis Hinvc : forallb (cleanf fk) (p_invs P ++ bound_invs P) = true.
+
+  Lemma spec_fluent_other0 s s' acts k : agree_off fk s s' -> fst k <> fk ->
+    spec_fluent P' s' acts k = spec_fluent P s acts k.
+  Proof.
+    intros Hs Hk. unfold spec_fluent. rewrite (isb_other fk P P' Hfl _ Hk), (Hs (fst k) (snd k) Hk). reflexivity.
+  Qed.
+
+  Lemma spec_fluent_fk0 s' acts : no_fk fk acts -> spec_fluent P' s' acts (fk, []) = CUnchanged.
+  Proof.
+    intros Hn. unfold spec_fluent, avals, deltas. rewrite !(filter_nofk fk acts [] _ Hn). reflexivity.
+  Qed.
+
+  Lemma effects_ok0 s s' acts : agree_off fk s s' -> no_fk fk acts ->
+    spec_effects_ok P' s' acts = spec_effects_ok P s acts.
+  Proof.
+    intros Hs Hn. unfold spec_effects_ok. apply forallb_eq_in. intros a Ha.
+    rewrite (spec_fluent_other0 s s' acts _ Hs (Hn a Ha)). reflexivity.
+  Qed.
+
+  Lemma succ0 s s' acts : agree_off fk s s' -> no_fk fk acts ->
+    agree_off fk (spec_succ P s acts) (spec_succ P' s' acts) /\ spec_succ P' s' acts fk [] = s' fk [].
+  Proof.
+    intros Hs Hn. split.
+    - intros f x Hf. unfold spec_succ. rewrite (spec_fluent_other0 s s' acts (f, x) Hs Hf), (Hs f x Hf). reflexivity.
+    - unfold spec_succ. rewrite (spec_fluent_fk0 s' acts Hn). reflexivity.
+  Qed.
+
+  (* the compiled action = the original one plus [X], a list of effects whose evaluation yields the results [rx]:
+     nothing ([]), a skipped conditional effect ([ESkip]) or the assignment fk := true ([EAct (xact fk true)]) *)
+  Lemma step_with a a' args s s' (fire : bool) :
+    agree_off fk s s' -> action_cleanf fk a = true ->
+    a_params a' = a_params a -> a_pre a' = a_pre a ->
+    fired false (mk_interp P' s' (zip_params (a_params a) args)) (a_effs a') =
+      match collect_res (eres_list false (mk_interp P' s' (zip_params (a_params a) args)) (a_effs a)) with
+      | Some acts => Some (if fire then acts ++ [xact fk true] else acts)
+      | None => None
+      end ->
+    match spec_step false P s a args, spec_step false P' s' a' args with
+    | Some t, Some t' => agree_off fk t t' /\ t' fk [] = (if fire then Some (VBool true) else s' fk [])
+    | None, None => True
+    | _, _ => False
+    end.
+  Proof.
+    intros Hs Hc Hp Hpre Hfi. unfold action_cleanf in Hc. apply andb_true_iff in Hc. destruct Hc as [Hc1 Hc2].
+    rewrite !spec_step_eq. rewrite Hp, Hpre, Hfi.
+    pose proof (mk_irel fk P P' Ho Hi s s' (zip_params (a_params a) args) Hs) as HR.
+    rewrite (all_hold_cleanf fk false _ _ (a_pre a) HR Hc1).
+    destruct (negb (all_hold false (mk_interp P s (zip_params (a_params a) args)) (a_pre a))); [exact I|].
+    rewrite (eres_list_cleanf fk false _ _ (a_effs a) HR Hc2).
+    change (fired false (mk_interp P s (zip_params (a_params a) args)) (a_effs a))
+      with (collect_res (eres_list false (mk_interp P s (zip_params (a_params a) args)) (a_effs a))).
+    destruct (collect_res (eres_list false (mk_interp P s (zip_params (a_params a) args)) (a_effs a))) as [acts|] eqn:EF;
+      [|exact I].
+    assert (Hn : no_fk fk acts) by (eapply fired_nofk; eassumption).
+    destruct fire.
+    - rewrite (effects_ok_extra fk P P' Hfl s s' acts true Hs Hn).
+      destruct (negb (spec_effects_ok P s acts)); [exact I|].
+      destruct (succ_extra fk P P' Hfl s s' acts true Hs Hn) as [Ha Hb].
+      rewrite (invariants_cleanf fk P P' Ho Hi Hfl Hv Hinvc _ _ Ha).
+      destruct (invariants_ok false P (spec_succ P s acts)); [split; assumption | exact I].
+    - rewrite (effects_ok0 s s' acts Hs Hn).
+      destruct (negb (spec_effects_ok P s acts)); [exact I|].
+      destruct (succ0 s s' acts Hs Hn) as [Ha Hb].
+      rewrite (invariants_cleanf fk P P' Ho Hi Hfl Hv Hinvc _ _ Ha).
+      destruct (invariants_ok false P (spec_succ P s acts)); [split; assumption | exact I].
+  Qed.
+End PlainStep.
+
+Lemma dedup_single c : forall l, (forall x, In x l -> x = c) ->
+  dedup_acc [c] l = [c] /\ (dedup_acc [] l = [] \/ dedup_acc [] l = [c]).
+Proof.
+  induction l as [|x l IH]; intros H; [split; [reflexivity | left; reflexivity]|].
+  assert (Hx : x = c) by (apply H; left; reflexivity). subst x.
+  destruct (IH (fun y Hy => H y (or_intror Hy))) as [IH1 _].
+  cbn [dedup_acc existsb]. rewrite expr_eqb_refl. cbn [orb app]. split; [exact IH1 | right; exact IH1].
+Qed.
+
+Section SometimePlan.
+  Variable smp sub0 : expr -> expr.
+  Variable mon : nat -> N.
+  Variable phi : expr.
+  Variable P : problem.
+  Variable G : state -> Prop.
+  Let c := ESometime phi.
+  Let fk := mon 0.
+
+  Hypothesis Hsmp : smp_exact smp.
+  Hypothesis Huniq : unique_ids P.
+  Hypothesis Hgp : gproblem P = true.
+  Hypothesis Hgf : gform phi = true.
+  Hypothesis Hgb : gbool P phi = true.
+  Hypothesis Hfresh : tcr_fresh1 smp fk P phi = true.
+  Hypothesis Gstep : forall s aid a args t, G s -> lookup_action P aid = Some a -> spec_step false P s a args = Some t -> G t.
+  Hypothesis Greg : forall s aid a, G s -> lookup_action P aid = Some a -> reg_ok P s a = true.
+  Hypothesis Gdef : forall s, G s -> gdef s phi = true.
+
+  Lemma fresh_parts :
+    (forall aid a, lookup_action P aid = Some a -> action_cleanf fk a = true /\ cleanf fk (R smp a phi) = true) /\
+    forallb (cleanf fk) (p_invs P ++ bound_invs P) = true /\ forallb (cleanf fk) (p_goals P) = true /\ cleanf fk phi = true.
+  Proof.
+    unfold tcr_fresh1 in Hfresh. apply andb_true_iff in Hfresh. destruct Hfresh as [H H4].
+    apply andb_true_iff in H. destruct H as [H H3]. apply andb_true_iff in H. destruct H as [H1 H2].
+    repeat split; try assumption; intros; rewrite forallb_forall in H1; unfold lookup_action in *;
+      match goal with Hl : lookupN _ _ = Some _ |- _ => apply lookupN_In in Hl; specialize (H1 _ Hl); cbn [snd] in H1;
+        apply andb_true_iff in H1; destruct H1; assumption end.
+  Qed.
+
+  Let AO : always_only P [EAlways phi] = true.
+  Proof. unfold always_only. cbn [forallb]. rewrite Hgf, Hgb. reflexivity. Qed.
+  Let GdefA : forall s x, G s -> In (EAlways x) [EAlways phi] -> gdef s x = true.
+  Proof. intros s x Gs [H|[]]. inversion H; subst. apply Gdef, Gs. Qed.
+
+  Lemma atom_idx_c : atom_idx [c] c = 0.
+  Proof. unfold atom_idx, c. cbn [atoms_from is_always rev app find fst snd]. rewrite expr_eqb_refl. reflexivity. Qed.
+
+  (* what the compiler adds to an action: nothing (with a reason) or the effect `if R then fk := true` *)
+  Definition no_effect_reason (a : action) : Prop :=
+    (forall e, In e (a_effs a) -> mentions c e = false) \/ R smp a phi = phi \/ is_false (smp (R smp a phi)) = true.
+
+  Lemma tcr_action_sometime a : exists E,
+    tcr_action smp mon [c] a =
+      (if existsb is_false (a_pre a) then None
+       else Some {| a_params := a_params a; a_pre := a_pre a; a_effs := a_effs a ++ E |}) /\
+    ((E = [] /\ no_effect_reason a) \/ E = [meff fk true (R smp a phi)]).
+  Proof.
+    unfold tcr_action.
+    assert (Hall : forall x, In x (flat_map (fun e => filter (fun c0 => mentions c0 e) [c]) (a_effs a)) -> x = c).
+    { intros x Hx. apply in_flat_map in Hx. destruct Hx as [e [_ Hx]]. apply filter_In in Hx. destruct Hx as [[<-|[]] _]. reflexivity. }
+    destruct (dedup_single c _ Hall) as [_ [E0|E1]]; unfold relevant_cs.
+    - rewrite E0. cbn [handle_all]. exists []. split; [reflexivity|]. left. split; [reflexivity|]. left.
+      intros e He. destruct (mentions c e) eqn:Em; [|reflexivity]. exfalso.
+      assert (Hin : In c (dedup_acc [] (flat_map (fun e => filter (fun c0 => mentions c0 e) [c]) (a_effs a)))).
+      { apply dedup_acc_in. right. apply in_flat_map. exists e. split; [exact He|]. cbn [filter]. rewrite Em. left; reflexivity. }
+      rewrite E0 in Hin. destruct Hin.
+    - rewrite E1. cbn [handle_all]. unfold c at 2. cbn [handle]. fold c. rewrite atom_idx_c. fold fk. unfold h_sometime.
+      destruct (expr_eqb (R smp a phi) phi) eqn:Er.
+      + exists []. split; [reflexivity|]. left. split; [reflexivity|]. right. left. apply expr_eqb_eq, Er.
+      + unfold add_cond_eff. destruct (is_false (smp (R smp a phi))) eqn:Ef.
+        * exists []. split; [reflexivity|]. left. split; [reflexivity|]. right. right. exact Ef.
+        * exists [meff fk true (R smp a phi)]. split; [reflexivity|]. right. reflexivity.
+  Qed.
+
+  (* ---- the compiled problem *)
+  Variable P' : problem.
+  Hypothesis Hcomp : tcr_compile smp sub0 mon [c] P = Some P'.
+
+  Lemma P'_eq1 : p_objs P' = p_objs P /\ p_ifun P' = p_ifun P /\ p_fluents P' = p_fluents P ++ [fk_decl fk] /\
+    p_invs P' = p_invs P /\ p_actions P' = map_actions (tcr_action smp mon [c]) (p_actions P) /\
+    p_goals P' = add_goals [smp (mkAnd (p_goals P ++ [EFluent fk []]))].
+  Proof.
+    unfold tcr_compile in Hcomp. cbn [existsb refused c orb] in Hcomp. inversion Hcomp; subst P'. cbn.
+    unfold landmark_goal, m_atom. cbn [filter is_landmark c map mkAnd]. fold c. rewrite atom_idx_c.
+    repeat split; reflexivity.
+  Qed.
+
+  Lemma step_sometime s s' aid a args m : G s -> agree_off fk s s' -> s' fk [] = Some (VBool m) ->
+    (holds false (mk_interp P s []) phi = true -> m = true) ->
+    lookup_action P aid = Some a ->
+    match spec_step false P s a args,
+          match lookup_action P' aid with Some a' => spec_step false P' s' a' args | None => None end with
+    | Some t, Some t' => agree_off fk t t' /\ t' fk [] = Some (VBool (m || holds false (mk_interp P t []) phi))
+    | None, None => True
+    | _, _ => False
+    end.
+  Proof.
+    intros Gs Hs Hm Hinv Hlk. destruct P'_eq1 as (Ho & Hi & Hfl & Hv & Ha & _).
+    destruct fresh_parts as (Hfa & Hfi & _ & Hfp). destruct (Hfa aid a Hlk) as [Hca HcR].
+    unfold lookup_action in *. rewrite Ha, (lookup_map_actions _ _ _ Huniq), Hlk.
+    destruct (tcr_action_sometime a) as [E [-> HE]].
+    assert (Hpa : a_params a = []) by (apply (a_params_nil P Hgp aid a); exact Hlk).
+    destruct (existsb is_false (a_pre a)) eqn:Efp.
+    { (* FALSE among the original preconditions: the original action is never applicable *)
+      rewrite spec_step_eq. apply existsb_exists in Efp. destruct Efp as [x [Hx Fx]].
+      destruct (all_hold false (mk_interp P s (zip_params (a_params a) args)) (a_pre a)) eqn:Eh; [|exact I].
+      pose proof (all_hold_In false _ _ x Eh Hx) as Hxx. destruct x; try discriminate. destruct b; discriminate. }
+    set (a' := {| a_params := a_params a; a_pre := a_pre a; a_effs := a_effs a ++ E |}).
+    (* value and definedness of the regressed formula, when the original step exists *)
+    assert (HK : forall t, spec_step false P s a args = Some t ->
+               eval false (R smp a phi) (mk_interp P s []) = Some (VBool (holds false (mk_interp P t []) phi))).
+    { intros t Hst.
+      destruct (regression_step P s a args t phi (a_ground P Hgp aid a Hlk) (Greg s aid a Gs Hlk) Hst Hgf Hgb (Gdef s Gs))
+        as (Ev & _ & D).
+      unfold R. rewrite Hsmp, Ev. unfold isB in D. unfold holds.
+      destruct (eval false phi (mk_interp P t [])) as [[[|]| |]|]; try discriminate; reflexivity. }
+    pose proof (mk_irel fk P P' Ho Hi s s' (zip_params (a_params a) args) Hs) as HR.
+    destruct HE as [[-> Hreason] | ->].
+    - (* nothing added *)
+      pose proof (step_with fk P P' Ho Hi Hfl Hv Hfi a a' args s s' false Hs Hca eq_refl eq_refl) as Hst.
+      cbn [a' a_effs] in Hst. rewrite app_nil_r in Hst.
+      assert (Hf0 : fired false (mk_interp P' s' (zip_params (a_params a) args)) (a_effs a) =
+                    match collect_res (eres_list false (mk_interp P' s' (zip_params (a_params a) args)) (a_effs a)) with
+                    | Some acts => Some acts | None => None end)
+        by (unfold fired, eres_list; destruct (collect_res _); reflexivity).
+      specialize (Hst Hf0).
+      destruct (spec_step false P s a args) as [t|] eqn:Est; destruct (spec_step false P' s' a' args) as [t'|];
+        try exact Hst; try exact I.
+      destruct Hst as [H1 H2]. split; [exact H1|]. rewrite H2, Hm. f_equal. f_equal.
+      assert (Hphi : holds false (mk_interp P t []) phi = true -> m = true).
+      { intros Ht. destruct Hreason as [Hirr | [Heq | Hfalse]].
+        - apply Hinv. rewrite <- Ht. symmetry.
+          apply (K2 [EAlways phi] P G Hgp AO Greg GdefA s t aid a args Gs Hlk Est phi (or_introl eq_refl)). exact Hirr.
+        - apply Hinv. pose proof (HK t eq_refl) as Hk. rewrite Heq in Hk. unfold holds. rewrite Hk, Ht. reflexivity.
+        - exfalso. pose proof (HK t eq_refl) as Hk. rewrite <- (Hsmp (R smp a phi)) in Hk.
+          destruct (smp (R smp a phi)); try discriminate. destruct b; try discriminate. cbn [eval] in Hk. rewrite Ht in Hk. discriminate. }
+      destruct (holds false (mk_interp P t []) phi); [rewrite (Hphi eq_refl); reflexivity | rewrite orb_false_r; reflexivity].
+    - (* the conditional effect `if R then fk := true` *)
+      destruct (spec_step false P s a args) as [t|] eqn:Est.
+      + pose proof (HK t eq_refl) as Hk.
+        assert (Hk' : eval false (R smp a phi) (mk_interp P' s' (zip_params (a_params a) args)) =
+                      Some (VBool (holds false (mk_interp P t []) phi))).
+        { rewrite (eval_cleanf fk false _ _ _ HR HcR), Hpa. exact Hk. }
+        pose proof (step_with fk P P' Ho Hi Hfl Hv Hfi a a' args s s' (holds false (mk_interp P t []) phi) Hs Hca eq_refl eq_refl) as Hst.
+        assert (Hfire : fired false (mk_interp P' s' (zip_params (a_params a) args)) (a_effs a') =
+                 match collect_res (eres_list false (mk_interp P' s' (zip_params (a_params a) args)) (a_effs a)) with
+                 | Some acts => Some (if holds false (mk_interp P t []) phi then acts ++ [xact fk true] else acts)
+                 | None => None
+                 end).
+        { cbn [a' a_effs]. unfold fired. rewrite flat_map_app, collect_res_app2.
+          fold (eres_list false (mk_interp P' s' (zip_params (a_params a) args)) (a_effs a)).
+          destruct (collect_res (eres_list false (mk_interp P' s' (zip_params (a_params a) args)) (a_effs a))) as [acts|]; [|reflexivity].
+          unfold meff. cbn [flat_map e_vars instances map app]. unfold eval_effect. cbn [e_args e_cond e_val e_fl e_kind evals_l].
+          rewrite Hk'. destruct (holds false (mk_interp P t []) phi); cbn [eval collect_res]; [reflexivity | rewrite app_nil_r; reflexivity]. }
+        specialize (Hst Hfire). rewrite Est in Hst.
+        destruct (spec_step false P' s' a' args) as [t'|]; [|exact Hst].
+        destruct Hst as [H1 H2]. split; [exact H1|]. rewrite H2.
+        destruct (holds false (mk_interp P t []) phi); [rewrite orb_true_r; reflexivity | rewrite orb_false_r; exact Hm].
+      + (* the original step fails: so does the compiled one (same preconditions, the original effects, invariants) *)
+        rewrite spec_step_eq in Est |- *. cbn [a' a_params a_pre a_effs].
+        unfold action_cleanf in Hca. apply andb_true_iff in Hca. destruct Hca as [Hc1 Hc2].
+        rewrite (all_hold_cleanf fk false _ _ (a_pre a) HR Hc1).
+        destruct (negb (all_hold false (mk_interp P s (zip_params (a_params a) args)) (a_pre a))); [exact I|].
+        unfold fired. rewrite flat_map_app, collect_res_app2.
+        fold (eres_list false (mk_interp P' s' (zip_params (a_params a) args)) (a_effs a)).
+        rewrite (eres_list_cleanf fk false _ _ (a_effs a) HR Hc2).
+        change (fired false (mk_interp P s (zip_params (a_params a) args)) (a_effs a))
+          with (collect_res (eres_list false (mk_interp P s (zip_params (a_params a) args)) (a_effs a))) in Est.
+        destruct (collect_res (eres_list false (mk_interp P s (zip_params (a_params a) args)) (a_effs a))) as [acts|] eqn:EF; [|exact I].
+        assert (Hn : no_fk fk acts) by (eapply fired_nofk; eassumption).
+        unfold meff. cbn [flat_map e_vars instances map app]. unfold eval_effect. cbn [e_args e_cond e_val e_fl e_kind evals_l].
+        destruct (eval false (R smp a phi) (mk_interp P' s' (zip_params (a_params a) args))) as [[[|]| |]|]; cbn [eval collect_res]; try exact I.
+        * change {| ae_key := (fk, []); ae_kind := KAssign; ae_val := VBool true |} with (xact fk true).
+          rewrite (effects_ok_extra fk P P' Hfl s s' acts true Hs Hn).
+          destruct (negb (spec_effects_ok P s acts)); [exact I|].
+          destruct (succ_extra fk P P' Hfl s s' acts true Hs Hn) as [Ha' _].
+          rewrite (invariants_cleanf fk P P' Ho Hi Hfl Hv Hfi _ _ Ha').
+          destruct (invariants_ok false P (spec_succ P s acts)); [discriminate | exact I].
+        * rewrite app_nil_r, (effects_ok0 fk P P' Hfl s s' acts Hs Hn).
+          destruct (negb (spec_effects_ok P s acts)); [exact I|].
+          destruct (succ0 fk P P' Hfl s s' acts Hs Hn) as [Ha' _].
+          rewrite (invariants_cleanf fk P P' Ho Hi Hfl Hv Hfi _ _ Ha').
+          destruct (invariants_ok false P (spec_succ P s acts)); [discriminate | exact I].
+        * rewrite app_nil_r, (effects_ok0 fk P P' Hfl s s' acts Hs Hn).
+          destruct (negb (spec_effects_ok P s acts)); [exact I|].
+          destruct (succ0 fk P P' Hfl s s' acts Hs Hn) as [Ha' _].
+          rewrite (invariants_cleanf fk P P' Ho Hi Hfl Hv Hfi _ _ Ha').
+          destruct (invariants_ok false P (spec_succ P s acts)); [discriminate | exact I].
+        * rewrite app_nil_r, (effects_ok0 fk P P' Hfl s s' acts Hs Hn).
+          destruct (negb (spec_effects_ok P s acts)); [exact I|].
+          destruct (succ0 fk P P' Hfl s s' acts Hs Hn) as [Ha' _].
+          rewrite (invariants_cleanf fk P P' Ho Hi Hfl Hv Hfi _ _ Ha').
+          destruct (invariants_ok false P (spec_succ P s acts)); [discriminate | exact I].
+  Qed.
+
+  Lemma lookup_none1 aid : lookup_action P aid = None -> lookup_action P' aid = None.
+  Proof.
+    intros H. destruct P'_eq1 as (_ & _ & _ & _ & Ha & _). unfold lookup_action in *.
+    rewrite Ha, (lookup_map_actions _ _ _ Huniq), H. reflexivity.
+  Qed.
+
+  (* runs: the compiled run exists iff the original one does; the states agree off fk and fk records "phi seen" *)
+  Lemma run_sometime pi : forall s s' m, G s -> agree_off fk s s' -> s' fk [] = Some (VBool m) ->
+    (holds false (mk_interp P s []) phi = true -> m = true) ->
+    match run P (spec_step false P) s pi, run P' (spec_step false P') s' pi with
+    | Some t, Some t' => agree_off fk t t' /\ t' fk [] = Some (VBool (m || sometime_seen P phi s pi))
+    | None, None => True
+    | _, _ => False
+    end.
+  Proof.
+    induction pi as [|[aid args] r IH]; intros s s' m Gs Hs Hm Hinv.
+    - cbn [run sometime_seen]. split; [exact Hs|]. rewrite Hm, orb_false_r.
+      destruct (holds false (mk_interp P s []) phi) eqn:E; [rewrite (Hinv eq_refl) | rewrite orb_false_r]; reflexivity.
+    - cbn [run sometime_seen].
+      destruct (lookup_action P aid) as [a|] eqn:Hlk; [|rewrite (lookup_none1 aid Hlk); exact I].
+      pose proof (step_sometime s s' aid a args m Gs Hs Hm Hinv Hlk) as Hst.
+      destruct (spec_step false P s a args) as [t|] eqn:Est.
+      + destruct (lookup_action P' aid) as [a'|]; [|destruct Hst].
+        destruct (spec_step false P' s' a' args) as [t'|]; [|destruct Hst]. destruct Hst as [H1 H2].
+        assert (Hinv' : holds false (mk_interp P t []) phi = true -> m || holds false (mk_interp P t []) phi = true)
+          by (intros ->; apply orb_true_r).
+        pose proof (IH t t' _ (Gstep s aid a args t Gs Hlk Est) H1 H2 Hinv') as HI.
+        destruct (run P (spec_step false P) t r) as [u|], (run P' (spec_step false P') t' r) as [u'|]; try exact HI.
+        destruct HI as [I1 I2]. split; [exact I1|]. rewrite I2. f_equal. f_equal.
+        assert (Ess : sometime_seen P phi t r = holds false (mk_interp P t []) phi || sometime_seen P phi t r)
+          by (destruct r as [|[? ?] ?]; cbn [sometime_seen]; destruct (holds false (mk_interp P t []) phi); reflexivity).
+        destruct (holds false (mk_interp P s []) phi) eqn:Es; [rewrite (Hinv eq_refl); reflexivity|].
+        cbn [orb]. rewrite Ess at 2. rewrite orb_assoc. reflexivity.
+      + destruct (lookup_action P' aid) as [a'|]; [|exact I]. destruct (spec_step false P' s' a' args); [destruct Hst | exact I].
+  Qed.
+
+  Lemma goals_sometime t t' : agree_off fk t t' ->
+    goals_hold false P' t' = goals_hold false P t && holds false (mk_interp P' t' []) (EFluent fk []).
+  Proof.
+    intros Ht. destruct P'_eq1 as (Ho & Hi & _ & _ & _ & Hg). destruct fresh_parts as (_ & _ & Hfg & _).
+    unfold goals_hold. rewrite Hg. unfold add_goals. cbn [filter].
+    assert (E : holds false (mk_interp P' t' []) (smp (mkAnd (p_goals P ++ [EFluent fk []]))) =
+                all_hold false (mk_interp P t []) (p_goals P) && holds false (mk_interp P' t' []) (EFluent fk [])).
+    { unfold holds at 1. rewrite Hsmp. fold (holds false (mk_interp P' t' []) (mkAnd (p_goals P ++ [EFluent fk []]))).
+      rewrite holds_mkAnd. unfold all_hold at 1. rewrite forallb_app. cbn [forallb]. rewrite andb_true_r.
+      fold (all_hold false (mk_interp P' t' []) (p_goals P)).
+      rewrite (all_hold_cleanf fk false _ _ (p_goals P) (mk_irel fk P P' Ho Hi t t' [] Ht) Hfg). reflexivity. }
+    destruct (is_true (smp (mkAnd (p_goals P ++ [EFluent fk []])))) eqn:Et; cbn [negb].
+    - rewrite <- E, (holds_true false _ _ Et). reflexivity.
+    - unfold all_hold at 1. cbn [forallb]. rewrite andb_true_r. exact E.
+  Qed.
+
+  (* PLAN LEVEL, one `sometime phi`: the compiled problem accepts exactly the valid plans of the original problem along
+     which phi holds in some visited state (the initial one included) *)
+  Theorem tcr_sometime_plan s0 s0' pi : G s0 -> agree_off fk s0 s0' ->
+    s0' fk [] = Some (VBool (holds false (mk_interp P s0 []) phi)) ->
+    valid_plan false P' s0' pi = valid_plan false P s0 pi && sometime_seen P phi s0 pi.
+  Proof.
+    intros G0 H0 Hm. unfold valid_plan.
+    pose proof (run_sometime pi s0 s0' _ G0 H0 Hm (fun H => H)) as HR.
+    destruct (run P (spec_step false P) s0 pi) as [t|], (run P' (spec_step false P') s0' pi) as [t'|]; try destruct HR; try reflexivity.
+    rewrite (goals_sometime t t' H). f_equal. unfold holds. rewrite eval_EFluent. cbn [evals mk_interp fl]. rewrite H1.
+    assert (Es : holds false (mk_interp P s0 []) phi || sometime_seen P phi s0 pi = sometime_seen P phi s0 pi)
+      by (destruct pi as [|[? ?] ?]; cbn [sometime_seen]; destruct (holds false (mk_interp P s0 []) phi); reflexivity).
+    rewrite Es. destruct (sometime_seen P phi s0 pi); reflexivity.
+  Qed.
+End SometimePlan.
+
+(* the compiled initial state ([tcr_init]: the monitoring atom is true iff its initial expression simplified to TRUE)
+   satisfies the two conditions of [tcr_sometime_plan] when the initial evaluation is exact *)
+Lemma tcr_init_sometime smp sub0 mon phi P s0 :
+  is_true (smp (sub0 phi)) = holds false (mk_interp P s0 []) phi ->
+  agree_off (mon 0) s0 (tcr_init smp sub0 mon [ESometime phi] s0) /\
+  tcr_init smp sub0 mon [ESometime phi] s0 (mon 0) [] = Some (VBool (holds false (mk_interp P s0 []) phi)).
+Proof.
+  intros H. unfold tcr_init, n_atoms, init_true. cbn [atoms_from is_always length seq existsb flat_map fst snd init_expr app].
+  split.
+  - intros f x Hf. replace (mon 0%nat =? f)%N with false by (symmetry; apply N.eqb_neq; congruence). reflexivity.
+  - rewrite N.eqb_refl. cbn [orb]. rewrite H. destruct (holds false (mk_interp P s0 []) phi); cbn; rewrite ?N.eqb_refl; reflexivity.
+Qed.
